@@ -856,6 +856,45 @@ let run_pc_sonic c =
                   | _ -> obs1 (k "check") "S" "refused");
                  recs.(t) <- Some (`Batch (tr3, pfs, vperm))
                | _ -> ())
+            | [ "lc"; s; ls ] ->
+              let chal = fs_of c (k "chal") and vchal = fs_of c (k "vchal") in
+              let ident = List.init n (fun i -> i) in
+              let pperm = if has c (k "pperm") then List.map int_of_string (get c (k "pperm")) else ident in
+              let vperm = if has c (k "vperm") then List.map int_of_string (get c (k "vperm")) else ident in
+              let lcs = parse_lcs c s lps in
+              let tr3 = triples3 (get c ("lqs." ^ ls)) in
+              let lcarr = Array.of_list lcs in
+              let lc_value (_, terms) z = List.fold_left (fun acc (co, tm) ->
+                  fo.Field.fadd acc (match tm with
+                      | LC.TOne -> co
+                      | LC.TPoly l ->
+                        let lp = List.find (fun lp -> Z.equal lp.Marlin.lp_label l) (Array.to_list lps) in
+                        fo.Field.fmul co (Poly.eval fo lp.Marlin.lp_poly z))) (tof Z.zero) terms in
+              let qs = List.map (fun (kk, zl, pj) -> (fst lcarr.(kk), (nlabel zl, pts.(pj)))) tr3 in
+              let ev = List.map (fun (kk, _, pj) -> ((fst lcarr.(kk), pts.(pj)), lc_value lcarr.(kk) pts.(pj))) tr3 in
+              let evm = Marlin.evals_map fo ev in
+              obs (k "evals") "F" (fs_to (List.map snd evm));
+              let items = List.map (fun i -> ((lps.(i), snd cs.(i)), fst cs.(i))) pperm in
+              let r = SonicLC.s_open_combinations fo ck lcs items qs chal in
+              obs1 (k "open") "S" (class_of r);
+              (match r with
+               | Result.Ok (pfs, rest) ->
+                 obs1 (k "nchal") "N" (string_of_int (List.length chal - List.length rest));
+                 obs1 (k "nproofs") "N" (string_of_int (List.length pfs));
+                 obs1 (k "lc_evals") "F" "none";
+                 List.iteri (fun j pf ->
+                     obs1 (Printf.sprintf "pf.%d.%d.w" t j) "G1" (f_to_str pf.KZG10.pf_w);
+                     obs1 (Printf.sprintf "pf.%d.%d.rv" t j) "F" (f_opt_to_str pf.KZG10.pf_random_v)) pfs;
+                 let vtape = fs_of c (k "vtape") in
+                 let cml = List.map (fun i -> (lps.(i).Marlin.lp_label, (fst cs.(i), lps.(i).Marlin.lp_bound))) vperm in
+                 (match SonicLC.s_check_combinations fo vk lcs cml qs ev pfs vchal vtape with
+                  | Result.Ok ((b, vrest), draws) ->
+                    obs1 (k "check") "S" (if b then "accept" else "reject");
+                    obs1 (k "nvchal") "N" (string_of_int (List.length vchal - List.length vrest));
+                    obs1 (k "check_draws") "N" (string_of_int (int_of_nat draws))
+                  | _ -> obs1 (k "check") "S" "refused");
+                 recs.(t) <- Some (`LC (lcs, tr3, pfs, vperm))
+               | _ -> ())
             | _ -> ()
           done;
           List.iter (fun (m, mv) ->
@@ -931,6 +970,42 @@ let run_pc_sonic c =
                       let vtape = fs_of c (Printf.sprintf "vtape.%d" t) in
                       let cml = List.map (fun i -> (lps.(i).Marlin.lp_label, cms.(i))) !vperm in
                       obs1 name "S" (decision (match Sonic.s_batch_check fo vk cml qs evm !pv mchal vtape with
+                          | Result.Ok ((b, _), _) -> Result.Ok b | Result.Err e -> Result.Err e | Result.Panic -> Result.Panic))
+                    end
+                  end
+                | Some (`LC (lcs0, tr3, pfs, vperm)) ->
+                  let lcs = ref lcs0 and ok = ref true and deltas = ref [] in
+                  let lcarr0 = Array.of_list lcs0 in
+                  let upd kk f = lcs := List.mapi (fun i (lab, terms) -> if i = kk then (lab, f terms) else (lab, terms)) !lcs in
+                  (match kind with
+                   | "value" -> deltas := [ (int_of_string (arg 0), f_of_str (arg 1)) ]
+                   | "coeff" -> let kk = int_of_string (arg 0) and tk = int_of_string (arg 1) in
+                     if kk < List.length !lcs && tk < List.length (snd (List.nth !lcs kk)) then
+                       upd kk (List.mapi (fun i (co, tm) -> if i = tk then (fo.Field.fadd co (f_of_str (arg 2)), tm) else (co, tm)))
+                     else ok := false
+                   | "const" -> let kk = int_of_string (arg 0) in
+                     if kk < List.length !lcs then upd kk (fun terms -> terms @ [ (f_of_str (arg 1), LC.TOne) ]) else ok := false
+                   | "comm_swap" -> let i = int_of_string (arg 0) and j = int_of_string (arg 1) in cms.(i) <- (fst cs.(j), snd cms.(i))
+                   | "sponge_pre" -> ()
+                   | _ -> ok := false);
+                  if !ok then begin
+                    let lc_value (_, terms) z = List.fold_left (fun acc (co, tm) ->
+                        fo.Field.fadd acc (match tm with
+                            | LC.TOne -> co
+                            | LC.TPoly l ->
+                              let lp = List.find (fun lp -> Z.equal lp.Marlin.lp_label l) (Array.to_list lps) in
+                              fo.Field.fmul co (Poly.eval fo lp.Marlin.lp_poly z))) (tof Z.zero) terms in
+                    let qs = List.map (fun (kk, zl, pj) -> (fst lcarr0.(kk), (nlabel zl, pts.(pj)))) tr3 in
+                    let ev = List.map (fun (kk, _, pj) -> ((fst lcarr0.(kk), pts.(pj)), lc_value lcarr0.(kk) pts.(pj))) tr3 in
+                    let evm = Marlin.evals_map fo ev in
+                    let nk = List.length evm in
+                    if List.exists (fun (kk, _) -> kk >= nk) !deltas then ()
+                    else begin
+                      let evm = List.mapi (fun i (key, v) ->
+                          (key, List.fold_left (fun v (kk, dd) -> if kk = i then fo.Field.fadd v dd else v) v !deltas)) evm in
+                      let vtape = fs_of c (Printf.sprintf "vtape.%d" t) in
+                      let cml = List.map (fun i -> (lps.(i).Marlin.lp_label, cms.(i))) vperm in
+                      obs1 name "S" (decision (match SonicLC.s_check_combinations fo vk !lcs cml qs evm pfs mchal vtape with
                           | Result.Ok ((b, _), _) -> Result.Ok b | Result.Err e -> Result.Err e | Result.Panic -> Result.Panic))
                     end
                   end
